@@ -2,7 +2,7 @@
 From Coq Require Import NArith List.
 From FitV Require Import Model.Crc Spec.CrcSpec Proofs.CrcProofs.
 Import ListNotations.
-Open Scope N_scope.
+Local Open Scope N_scope.
 
 (* every one of the 65536 x 256 (state, byte) transitions *)
 Theorem C14_update_is_arc : forall c d, c < 65536 -> d < 256 -> update_byte c d = arc_step c d.
